@@ -303,6 +303,17 @@ pub(crate) fn verif_block_layout<T>() -> (usize, usize) {
 impl<T: RcObject> RcInner<T> {
     #[inline]
     pub(crate) unsafe fn decrement_strong(ptr: *mut Self, count: u32, guard: Option<&Guard>) {
+        // The epoch stamp must be read and published inside one critical section. An unpinned
+        // thread delayed between the read and the CAS below would publish an arbitrarily stale
+        // stamp, overwrite a recent one, and make a cascade reclaim the object under a reader.
+        let owned_guard;
+        let guard = match guard {
+            Some(guard) => guard,
+            None => {
+                owned_guard = cs();
+                &owned_guard
+            }
+        };
         let epoch = global_epoch();
         // Should mark the current epoch on the strong count with CAS.
         let hit_zero = loop {
@@ -336,11 +347,7 @@ impl<T: RcObject> RcInner<T> {
             guard.incr_manual_collection();
         };
 
-        if let Some(guard) = guard {
-            trigger_recl(guard)
-        } else {
-            trigger_recl(&cs())
-        }
+        trigger_recl(guard)
     }
 
     #[inline]
